@@ -47,16 +47,22 @@ Label(dim, n) ==
 PathOf(q, n) == [L \in 1..4 |-> IF L <= Len(q.group) THEN Label(q.group[L], n) ELSE << >>]
 
 \* ----- ORDER BY keys; `none` = page path, then line number (a number)
-KeyLess(k, a, b) == CASE k = "ALPHA" -> LexLess(a.alpha, b.alpha)
+\* asBuilt: the recorded deviation - line numbers are compared as text ("10" before "9") under `none`
+KeyLessG(k, a, b, asBuilt) ==
+                    CASE k = "ALPHA" -> LexLess(a.alpha, b.alpha)
                       [] k = "CREATE_DATE" -> a.cd < b.cd
                       [] k = "MODIFY_DATE" -> a.md < b.md
                       [] k = "NOTE_TYPE" -> LexLess(TypeLabel(a.kind), TypeLabel(b.kind))
                       [] k = "PRIORITY" -> LexLess(a.prio, b.prio)
-                      [] k = "NONE" -> LexLess(a.page, b.page) \/ (a.page = b.page /\ a.line < b.line)
+                      [] k = "NONE" -> LexLess(a.page, b.page)
+                                       \/ (a.page = b.page /\ IF asBuilt THEN LexLess(a.linetxt, b.linetxt) ELSE a.line < b.line)
+KeyLess(k, a, b) == KeyLessG(k, a, b, FALSE)
 KeyEq(k, a, b) == ~KeyLess(k, a, b) /\ ~KeyLess(k, b, a)
-RECURSIVE TupleLess(_, _, _)
-TupleLess(ks, a, b) == IF ks = << >> THEN FALSE
-                       ELSE KeyLess(ks[1], a, b) \/ (KeyEq(ks[1], a, b) /\ TupleLess(Tail(ks), a, b))
+RECURSIVE TupleLessG(_, _, _, _)
+TupleLessG(ks, a, b, asBuilt) ==
+                       IF ks = << >> THEN FALSE
+                       ELSE KeyLessG(ks[1], a, b, asBuilt) \/ (KeyEq(ks[1], a, b) /\ TupleLessG(Tail(ks), a, b, asBuilt))
+TupleLess(ks, a, b) == TupleLessG(ks, a, b, FALSE)
 RECURSIVE PathLess(_, _)
 PathLess(p, r) == IF p = << >> THEN FALSE ELSE LexLess(p[1], r[1]) \/ (p[1] = r[1] /\ PathLess(Tail(p), Tail(r)))
 
@@ -83,7 +89,7 @@ Clauses(M, q, E) ==
       alphaOnly == Range(q.order) = {"ALPHA"}
       noteOf(i) == CHOOSE n \in notes : n.text = E[i].text
   IN
-  { c \in {"groups", "group-order", "each-once", "note-order", "values", "values-sorted", "count"} :
+  { c \in {"groups", "group-order", "each-once", "note-order", "note-order-as-built", "values", "values-sorted", "count"} :
      CASE c = "groups" ->          \* the header paths that occur are exactly the group values of the matching notes
             ~({ E[i].path : i \in DOMAIN E } = { p \in paths : q.select.t \in {"COUNT", "NOTE"} \/ Selected(sel, leaf(p)) # {} })
        [] c = "group-order" ->     \* groups are contiguous and appear in increasing label order at every level
@@ -94,6 +100,9 @@ Clauses(M, q, E) ==
        [] c = "note-order" ->      \* inside a group: the ORDER BY keys decide, ties in any order
             q.select.t = "NOTE" /\ { E[i].text : i \in DOMAIN E } \subseteq { n.text : n \in notes }
             /\ ~(\A i \in 1..(Len(E) - 1) : E[i].path = E[i+1].path => ~TupleLess(q.order, noteOf(i+1), noteOf(i)))
+       [] c = "note-order-as-built" ->   \* the same with the recorded deviation: tells that finding from any other disorder
+            q.select.t = "NOTE" /\ { E[i].text : i \in DOMAIN E } \subseteq { n.text : n \in notes }
+            /\ ~(\A i \in 1..(Len(E) - 1) : E[i].path = E[i+1].path => ~TupleLessG(q.order, noteOf(i+1), noteOf(i), TRUE))
        [] c = "values" ->          \* other selects: exactly the distinct values carried by the group's notes
             q.select.t \notin {"NOTE", "COUNT"}
             /\ ~(\A p \in paths : /\ { E[i].text : i \in ents(p) } = Selected(sel, leaf(p))
